@@ -166,7 +166,7 @@ def show_goal(kind, t):
 
 FIXED_GOALS = [("IsUpstream", ("TScalar", 0)), ("IsFullyVisible", ("TScalar", 0)), ("IsFullyVisible", ("TTuple", [("TScalar", 0), ("TAdt", 2, [])])),
                ("IsUpstream", ("TTuple", [("TAdt", 0, []), ("TScalar", 0)])), ("IsFullyVisible", ("TTuple", [])), ("IsLocal", ("TScalar", 1)),
-               ("IsLocal", ("TTuple", [("TAdt", 0, [])])), ("IsFullyVisible", ("TTuple", [("TParam", 0), ("TScalar", 0)]))]
+               ("IsLocal", ("TTuple", [("TAdt", 0, []), ("TAdt", 0, [])])), ("IsFullyVisible", ("TTuple", [("TParam", 0), ("TScalar", 0)]))]
 
 
 def evaluate(ctx, impls, goals, tag="main", emit=True, count=True):
